@@ -88,6 +88,7 @@ class CustomFieldsGenerator:
     def generate(self) -> ast.Module:
         """Generates an AST module containing the custom fields and required imports."""
         self.argument_generator.add_custom_scalar_imports()
+        self._imports.extend(self.argument_generator.imports)
         module = generate_module(
             body=cast(List[ast.stmt], self._imports + self._class_defs),
         )
